@@ -368,6 +368,19 @@ def rule_part(ctx):
     ctx.rule('C16.part', 'server partitions: allocator(size per client, reserved, client_id * that same size [+ io offset])')
     srv = ctx.repo.cls('sc3.synth.server:Server')
     mod = srv.module
+    # a change of client id rebuilds every allocator family (a family left behind keeps handing out the previous client's range)
+    na = srv.methods['_new_allocators']
+    fams = sorted(n_ for n_ in srv.methods if n_.startswith('_new_') and n_.endswith('_allocators') and n_ != '_new_allocators')
+    called = {U.method_name(c) for c in U.calls(na.node) if U.is_self_attr(c.func)}
+    ctx.require(len(fams) >= 3, 'C16.part', f'allocator families not bound: {fams}')
+    ctx.ob('C16.part', f'{na.fq}:all-families', set(fams) <= called, f'_new_allocators must rebuild {fams}; it calls {sorted(called)}', na.node, mod)
+    sc_ = srv.methods['_set_client_id']
+    st = [norm(x) for x in walk_local_ordered(sc_.node) if isinstance(x, (ast.Assign, ast.Expr))]
+    def _pos(t):
+        return next((i for i, x in enumerate(st) if x == t), None)
+    a_, b_ = _pos(f'self._client_id = {sc_.params[1]}'), _pos('self._new_allocators()')
+    ctx.ob('C16.part', f'{sc_.fq}:store-then-rebuild', a_ is not None and b_ is not None and a_ < b_,
+           'the new client id is stored before the allocators are rebuilt from it', sc_.node, mod)
     for fn in ('_new_bus_allocators', '_new_buffer_allocators'):
         f = srv.methods[fn]
         env = {}
@@ -431,6 +444,10 @@ def run(ctx):
 
 
 MUTANTS = [
+    dict(rule='C16.part', name='client id change does not rebuild the buffer allocators', file='sc3/synth/server.py',
+         old="        self._new_bus_allocators()\n        self._new_buffer_allocators()\n", new="        self._new_bus_allocators()\n"),
+    dict(rule='C16.part', name='allocators rebuilt before the client id is stored', file='sc3/synth/server.py',
+         old="        self._client_id = value\n        self._new_allocators()", new="        self._new_allocators()\n        self._client_id = value"),
     dict(rule='C16.free', name='adjoins requires a strict overlap', file='sc3/synth/_engine.py',
          old="        return (st < st2 and st + sz >= st2) or (st > st2 and st2 + sz2 >= st)", new="        return (st < st2 and st + sz > st2) or (st > st2 and st2 + sz2 > st)"),
     dict(rule='C16.free', name='free list entry removed under the wrong size', file='sc3/synth/_engine.py',
